@@ -396,10 +396,10 @@ fn run_miri_parts(tier: Tier, seed: u64) -> MiriOutcome {
 /// (component, runs per job, jobs).
 fn cross_plan(property: &str) -> Vec<(&'static str, u64, u64)> {
     match property {
-        "C01" => vec![("C01", 12, 2)],
-        "C02" => vec![("C02", 40, 1)],
-        "C08" => vec![("C08", 16, 1)],
-        "C11" => vec![("C11", 32, 1)],
+        "C01" => vec![("C01", 6, 4)],
+        "C02" => vec![("C02", 10, 4)],
+        "C08" => vec![("C08", 8, 2)],
+        "C11" => vec![("C11", 16, 2)],
         "C13" => vec![("C13", 40, 3), ("C13t", 6, 1)],
         "C16" => vec![("C16", 60, 4), ("C16t", 10, 1)],
         _ => vec![],
